@@ -50,7 +50,7 @@ class C20(CheckBase):
     id = 'C20'
     title = 'The HTTP API returns exactly what the library computes'
     quick_runs = 800
-    thorough_runs = 30000
+    thorough_runs = 30000 + 2 * 16 * 361
     quick_budget_s = 60
     thorough_budget_s = 1200
     run_timeout = 90
@@ -158,9 +158,25 @@ class C20(CheckBase):
                 'sched': {'mode': 'rng', 'seed': rng.getrandbits(64)}, 'switches': [], 'shuffle_seed': rng.getrandbits(32),
                 'pair_sweep': True, 'granularity': 'instr' if rng.random() < 0.5 else 'line'}
 
+    N_RANDOM_THOROUGH = 30000
+    N_PREEMPT_POINTS = 16
+
+    def _preempt_trace(self, rng, j):
+        """thorough tier: every ordered pair of request types, client 0 stopped `frac` of the way through its
+        handler, client 1 then served completely (single) or up to the same point of its own handler (diag)"""
+        point, rest = j % self.N_PREEMPT_POINTS, j // self.N_PREEMPT_POINTS
+        diag, pair = rest % 2, rest // 2
+        tr = self._pair_trace(rng, pair % self.N_PAIR_SWEEP)
+        tr['ops'] = tr['ops'][:2]
+        tr['sched'] = {'mode': 'preempt', 'frac': (point + 0.5) / self.N_PREEMPT_POINTS, 'diag': bool(diag)}
+        tr['granularity'] = 'line'
+        return tr
+
     def generate(self, rng, i, tier):
         if i < self.N_PAIR_SWEEP:
             return self._pair_trace(rng, i)
+        if tier == 'thorough' and i >= self.N_RANDOM_THOROUGH:
+            return self._preempt_trace(rng, i - self.N_RANDOM_THOROUGH)
         T = rng.choice([1, 2, 2, 3, 3, 4, 5, 6])
         nreq = rng.choice([5, 8, 12, 20, 30, 40])
         reqs = []
@@ -284,6 +300,12 @@ class C20(CheckBase):
             decider = draw_decider(random.Random(trace['sched']['seed']), T, horizon=8000)
         elif sm == 'rr':
             decider = RoundRobin(None, trace['sched'].get('q', 1)) if T > 1 else Decider()
+        elif sm == 'preempt':
+            r0 = reqs[ops[0]['req']]
+            L = self._count_lines(r0, trace) if ops else 0
+            pnt = 1 + int(trace['sched']['frac'] * max(L, 1))
+            decider = Replay([[ops[0]['client'] % T, pnt, ops[1]['client'] % T]] +
+                             ([[ops[1]['client'] % T, pnt, ops[0]['client'] % T]] if trace['sched'].get('diag') else [])) if len(ops) > 1 and T > 1 else Decider()
         else:
             decider = Replay(trace.get('switches', []))
         # abort faults are placed with the handler's line count measured un-pre-empted
